@@ -180,6 +180,9 @@ partial def loop (h : IO.FS.Stream) (s : DS) : IO Unit := do
         | some n => if n.isset && n.ty != tyOfName t then "invalid" else getRes st o
         | none => getRes st o
       IO.println s!"> gett {r}"; loop h s
+  | ["badset", _, _, _, st] =>
+    -- a value refused by the key's pre-set hook (the hook itself is not modelled; the status is given): nothing changes
+    IO.println s!"> set {st}"; loop h s
   | ["set", c, p, v] =>
     match world c.toNat! with
     | none => IO.println "> bad-op"; loop h s
